@@ -63,7 +63,9 @@ func checkC05(c *Ctx) (int, error) {
 					id++
 					if ctor == "reset" {
 						// first use the Reader on another small stream, completely
-						first := RSeg{Stream: encStream("std", kind, 6, DataSpec{Class: "text", Seed: int64(id), Len: 50}, nil), Src: srcWith(RSource{Kind: "bytesReader"}, nil), Reads: []int{4096}, Multi: false}
+						fs := encStream("std", kind, 6, DataSpec{Class: "text", Seed: int64(id), Len: 50}, nil)
+						fs.Mut = []Mutation{{Op: "append", N: 1 + id%90, Seed: int64(id)}}
+						first := RSeg{Stream: fs, Src: srcWith(RSource{Kind: []string{"bytesReader", "bufio", "bufio"}[id%3], BufSize: []int{4096, 64, 4096}[id%3]}, nil), Reads: []int{4096}, Multi: false}
 						cs.Segs = []RSeg{first, seg}
 					} else {
 						cs.Segs = []RSeg{seg}
